@@ -6,15 +6,22 @@
 (*   (TestCase.remove_unused_variables) -> export (testcase.export)        *)
 (* A statement is [id, bv (binds a variable), uses (ids of earlier         *)
 (* statements whose variable it reads), asserts (number of reference       *)
-(* assertions on its variable), raises ("none" | "expected" |              *)
-(* "unexpected"), covers (goals only this statement reaches)].             *)
+(* assertions on its variable), about (ids of EARLIER statements whose     *)
+(* object state is asserted right after this statement: assertion          *)
+(* generation attaches `assert var_0.on is True` to the call that changed  *)
+(* var_0, not to the statement that created it), raises ("none" |          *)
+(* "expected" | "unexpected"), covers (goals only this statement reaches)].*)
 (* Properties: C19 KeepAsserts, C22 MinKeeps, C18 export decision table.   *)
 (* KeepAssertedBinding = FALSE models remove_unused_variables as it was    *)
 (* before commit 1355a01 (must violate KeepAsserts).                        *)
+(* ProtectCarriers = FALSE models statement minimisation as it was before  *)
+(* commit b1928d7: only the variables that assertions read (and what they  *)
+(* depend on) were protected, not the statements that carry assertions     *)
+(* (must violate KeepAsserts as well).                                     *)
 (***************************************************************************)
 EXTENDS Naturals, Sequences, FiniteSets, TLC
 
-CONSTANTS MaxLen, Goals, KeepAssertedBinding, NoXfail
+CONSTANTS MaxLen, Goals, KeepAssertedBinding, NoXfail, ProtectCarriers
 
 Raises == {"none", "expected", "unexpected"}
 StmtIds == 1..MaxLen
@@ -27,7 +34,9 @@ VARIABLES tc,        \* sequence of statements
           file       \* exported function: [lines: seq of [id, bound, nassert, wrapped], xfail]
 vars == <<tc, phase, asserts0, cov0, ids0, file>>
 
-Stmt(i, bv, uses, a, r, c) == [id |-> i, bv |-> bv, uses |-> uses, asserts |-> a, raises |-> r, covers |-> c]
+Stmt(i, bv, uses, a, ab, r, c) ==
+  [id |-> i, bv |-> bv, uses |-> uses, asserts |-> a, about |-> ab, raises |-> r, covers |-> c]
+Carried(s) == s.asserts + Cardinality(s.about)       \* assertions attached to the statement
 Ids(t) == {t[k].id : k \in DOMAIN t}
 Cov(t) == UNION {t[k].covers : k \in DOMAIN t}
 UsedLater(t, k) == \E j \in (k+1)..Len(t) : t[k].id \in t[j].uses
@@ -38,7 +47,8 @@ NoFile == [lines |-> <<>>, xfail |-> FALSE]
 WellFormed(t) ==
   /\ \A k \in DOMAIN t : t[k].id = k
   /\ \A k \in DOMAIN t : t[k].uses \subseteq {j \in 1..(k-1) : t[j].bv}
-  /\ \A k \in DOMAIN t : (t[k].asserts > 0 => t[k].bv) /\ (t[k].raises # "none" => (k = Len(t) /\ t[k].asserts = 0))
+  /\ \A k \in DOMAIN t : (t[k].asserts > 0 => t[k].bv) /\ (t[k].raises # "none" => (k = Len(t) /\ Carried(t[k]) = 0))
+  /\ \A k \in DOMAIN t : t[k].about \subseteq t[k].uses
 
 Init ==
   /\ phase = "build" /\ asserts0 = [i \in StmtIds |-> 0] /\ cov0 = {} /\ ids0 = {} /\ file = NoFile
@@ -50,22 +60,26 @@ AddStmt ==
   /\ (IF tc = <<>> THEN TRUE ELSE tc[Len(tc)].raises = "none")
   /\ \E bv \in BOOLEAN, a \in 0..1, r \in Raises, c \in SUBSET Goals,
         uses \in SUBSET {j \in DOMAIN tc : tc[j].bv} :
-        /\ (a > 0 => bv) /\ (r # "none" => a = 0)
-        /\ tc' = Append(tc, Stmt(Len(tc) + 1, bv, uses, a, r, c))
+        \E ab \in SUBSET uses :          \* the state of a receiver/argument may be asserted afterwards
+        /\ (a > 0 => bv) /\ (r # "none" => (a = 0 /\ ab = {}))
+        /\ tc' = Append(tc, Stmt(Len(tc) + 1, bv, uses, a, ab, r, c))
   /\ UNCHANGED <<phase, asserts0, cov0, ids0, file>>
 BuildDone == phase = "build" /\ tc # <<>> /\ phase' = "gen" /\ UNCHANGED <<tc, asserts0, cov0, ids0, file>>
 
 (* tc already carries the assertions of assertion generation / minimisation *)
 Snapshot ==
   /\ phase = "gen" /\ phase' = "asserted"
-  /\ asserts0' = [i \in StmtIds |-> IF i \in Ids(tc) THEN tc[i].asserts ELSE 0]
+  /\ asserts0' = [i \in StmtIds |-> IF i \in Ids(tc) THEN Carried(tc[i]) ELSE 0]
   /\ cov0' = Cov(tc) /\ ids0' = Ids(tc)
   /\ UNCHANGED <<tc, file>>
 
 (* statement minimisation: remove one statement if nothing later uses it, coverage stays,  *)
-(* and its variable is not asserted on (assertion-protected)                               *)
+(* and its variable is not read by an assertion (directly, or as the object whose state a  *)
+(* later statement asserts); with ProtectCarriers also if it carries assertions itself     *)
+ReadByAssertion(t, k) == t[k].asserts > 0 \/ \E j \in DOMAIN t : t[k].id \in t[j].about
 Removable(t, k) == ~UsedLater(t, k) /\ Cov(SubSeq(t, 1, k-1) \o SubSeq(t, k+1, Len(t))) = Cov(t)
-                   /\ t[k].asserts = 0 /\ t[k].raises = "none"
+                   /\ ~ReadByAssertion(t, k) /\ t[k].raises = "none"
+                   /\ (ProtectCarriers => Carried(t[k]) = 0)
 MinimizeStep ==
   /\ phase = "asserted"
   /\ \E k \in DOMAIN tc : Removable(tc, k) /\ tc' = SubSeq(tc, 1, k-1) \o SubSeq(tc, k+1, Len(tc))
@@ -86,7 +100,7 @@ Clean ==
 Export ==
   /\ phase = "cleaned" /\ phase' = "exported"
   /\ file' = [lines |-> [k \in DOMAIN tc |->
-                           [id |-> tc[k].id, bound |-> tc[k].bv, nassert |-> tc[k].asserts,
+                           [id |-> tc[k].id, bound |-> tc[k].bv, nassert |-> Carried(tc[k]),
                             wrapped |-> tc[k].raises = "expected" \/ (NoXfail /\ tc[k].raises = "unexpected")]],
               xfail |-> \E k \in DOMAIN tc : tc[k].raises = "unexpected" /\ ~NoXfail]
   /\ UNCHANGED <<tc, asserts0, cov0, ids0>>
@@ -98,7 +112,9 @@ Spec == Init /\ [][Next]_vars
 KeepAsserts ==
   phase = "exported" =>
     \A i \in StmtIds : asserts0[i] > 0 =>
-      \E k \in DOMAIN file.lines : file.lines[k].id = i /\ file.lines[k].nassert = asserts0[i] /\ file.lines[k].bound
+      \E k \in DOMAIN file.lines : /\ file.lines[k].id = i /\ file.lines[k].nassert = asserts0[i]
+                                   \* an assertion on the statement's own variable needs the binding
+                                   /\ (\E j \in DOMAIN tc : tc[j].id = i /\ tc[j].asserts > 0) => file.lines[k].bound
 (* ---- C22 ---- *)
 MinKeeps ==
   phase \in {"minimized", "cleaned", "exported"} =>
